@@ -178,6 +178,7 @@ def plan(tier, seed):
     for k, (pb, fam) in enumerate([(270, "tree"), (300, "tree_plus"), (290, "band"), (257, "tree_plus"), (132, "hubs"), (203, "hubs")] +
                                   ([(400, "tree_plus"), (520, "band")] if tier == "thorough" else [])):
         jobs.append({"sub": "cpdag_big", "seed": seed, "p": pb, "family": fam, "index": k, "cost": 12})
+    jobs.append({"sub": "cpdag_long", "seed": seed, "p": 1040 + seed % 7, "cost": 30})
     n1 = scaled(640 if tier == "quick" else 20000)
     n2 = scaled(320 if tier == "quick" else 8000)
     shards = 16 if tier == "quick" else 32
@@ -193,6 +194,25 @@ def run(job):
         _run_cpdag_exh(acc, job)
     elif job["sub"] == "p2c_exh":
         _run_p2c_exh(acc, job)
+    elif job["sub"] == "cpdag_long":
+        # a directed path through more than 1000 nodes that runs AGAINST the node numbering (k -> k-1): no v-structure, so
+        # the essential graph is the undirected path (known without any oracle); deep graphs break recursive traversals
+        import sempler.utils as utils
+        pl = job["p"]
+        A = np.zeros((pl, pl), dtype=int)
+        for k in range(1, pl):
+            A[k, k - 1] = 1
+        case = {"sub": "cpdag_long", "p": pl}
+        try:
+            res = np.asarray(must(lib(utils.dag_to_cpdag, A), "dag_to_cpdag(path %d -> ... -> 0)" % (pl - 1)))
+            if res.shape != (pl, pl) or not np.array_equal(res != 0, (A != 0) | (A.T != 0)):
+                raise Violation("cpdag_wrong", "dag_to_cpdag of the directed path %d -> ... -> 1 -> 0 is not the undirected path (%d directed, "
+                                "%d undirected edges returned)" % (pl - 1, int(((res != 0) & (res.T == 0)).sum()), int(((res != 0) & (res.T != 0)).sum() // 2)))
+            acc.record(case, ["long_reversed_path"], True, by_construction=True)
+        except Violation as v:
+            acc.record(case, [], False)
+            acc.violation(case, v)
+        acc.exhaustive = False
     elif job["sub"] == "cpdag_big":
         # sparse graphs on more than 256 nodes (trees, trees with a few colliders, bands), labels scrambled: most edges are
         # reversible, so any mis-ordering of the edges shows as a wrongly compelled edge
